@@ -15,6 +15,7 @@ var mutClasses = []string{
 	"trunc", "bitflip1", "bitflipN", "byteset", "linedup", "linedel", "lineswap", "chunkdup", "chunkdel",
 	"nul", "badutf8", "longline", "hugenum", "typeconf", "splice", "nestins", "kwline", "delimswap", "kwline", "numtweak", "trunc", "bitflipN", "typeconf",
 }
+
 // ("kwline" is a placeholder: makePlan replaces it by kwline:k<hex keyword> with a keyword of the extractor, see keywords.go;
 // the quick tier runs the first 20 classes of this list per fixture)
 
